@@ -201,8 +201,8 @@ CLAIMED['C15'] = dict(
          'each phase exactly once and in order, attached module initialised before use, configuration errors reported, '
          'configured write before the first poll, ready only after the first round or the time-out, pollers stopped '
          'before any shutdownModule and no poll still in progress then unless the grace time ran out, users shut down before the modules they are attached to.',
-    note='Trusted: simulation kernel, instrumented module classes. Graphs are sampled, not enumerated. An attachment to a '
-         'missing/wrongly typed module that is never touched, or touched only at run time, is not required to be reported.',
+    note='Trusted: simulation kernel, instrumented module classes. Graphs are sampled, not enumerated. A start-up that '
+         'ends with a configuration error must not have started, polled or written anything (rule half-started).',
     design='6/C15')
 
 CLAIMED['C10'] = dict(
